@@ -27,7 +27,7 @@ ASSUME = ["'rejected' = translation raises (any exception type)", "floats are co
 INTS = [0, 1, -1, 7, 2 ** 31 - 1, -(2 ** 31) + 1, 2 ** 31, -(2 ** 31), 2 ** 32, 2 ** 63 - 1, 2 ** 63, 10 ** 30, 123456789]
 FLOATS = [0.5, 0.1, 1e-07, 1e+22, 5e-324, 1.7976931348623157e+308, 2.2250738585072014e-308, -0.0, 3.0, 1e16, 123456.789e3, 1.0000000000000002, float("inf"), float("-inf"), float("nan"), 0.30000000000000004]
 STRINGS = ["plain", "with space", "", 'dq"uote', "sq'uote", "back\\slash", "trail\\", "nl\nline", "tab\there", "pct%d%s", "{braces}", "??/trigraph", "ünï©ode✓", "a" * 1024, "\\1\\g<0>", "\\n literal",
-           "semi;colon", "hash#", "/*c*/", "// c", "${x}", "\"", "\\\\", "\r", "x\0y"[:1] + "y", "emoji😀"]
+           "trailing ", " leading", "  both  ", "tab_at_end\t", "nl_at_end\n", " ", "semi;colon", "hash#", "/*c*/", "// c", "${x}", "\"", "\\\\", "\r", "x\0y"[:1] + "y", "emoji😀"]
 
 
 def pylit(v) -> str:
